@@ -21,7 +21,7 @@ import (
 	"github.com/meshplus/bitxhub-model/constant"
 	"github.com/meshplus/bitxhub-model/pb"
 	"github.com/meshplus/bitxhub/verifharness/core"
-	ethledger "github.com/meshplus/eth-kit/ledger"
+	"github.com/meshplus/bitxhub/verifharness/lockstep"
 )
 
 type Arg struct {
@@ -64,13 +64,11 @@ var users = []string{"u1", "u2", "u3", "u4"}
 var poor = map[string]string{"p0": "", "p1": "1", "p2": "20999", "p3": "21000", "p4": "21001", "p5": "230000", "p6": "209999"}
 
 type runner struct {
-	a, b  *core.Node
-	plan  *Plan
-	out   *os.File
-	seq   int
-	allow map[string]bool // dump keys allowed to differ between a and b
-	prevDiff map[string]bool
-	attr  bool            // still attributable
+	a, b *core.Node
+	pair *lockstep.Pair
+	plan *Plan
+	out  *os.File
+	seq  int
 }
 
 func (r *runner) emit(m map[string]interface{}) {
@@ -169,60 +167,6 @@ func (r *runner) build(n *core.Node, t Tx) pb.Transaction {
 	return tx
 }
 
-func balances(n *core.Node) (map[string]int64, map[string]int64, bool) {
-	bal, non := map[string]int64{}, map[string]int64{}
-	neg := false
-	for k, v := range n.DumpRaw() {
-		if kind, addr, _ := core.DecodeKey(k); kind == "account" {
-			acc := &ethledger.InnerAccount{}
-			if err := acc.Unmarshal(v); err != nil {
-				continue
-			}
-			if acc.Balance.Sign() < 0 {
-				neg = true
-			}
-			if acc.Balance.IsInt64() && acc.Balance.Int64() < 1<<31 {
-				bal[addr] = acc.Balance.Int64()
-			} else {
-				bal[addr] = -1 // does not fit the specification's integers (never reached with the harness genesis)
-			}
-			non[addr] = int64(acc.Nonce)
-		}
-	}
-	return bal, non, neg
-}
-
-func diffKeys(x, y map[string]string) []string {
-	out := []string{}
-	for k, v := range x {
-		if y[k] != v {
-			out = append(out, k)
-		}
-	}
-	for k := range y {
-		if _, ok := x[k]; !ok {
-			out = append(out, k)
-		}
-	}
-	sort.Strings(out)
-	return out
-}
-
-func retClass(rc *pb.Receipt) string {
-	s := string(rc.Ret)
-	switch {
-	case rc.Status == pb.Receipt_SUCCESS:
-		return "ok"
-	case strings.Contains(s, "insufficient balance"):
-		return "fee"
-	case strings.Contains(s, "not sufficient funds"):
-		return "funds"
-	case strings.Contains(s, "verify signature") || strings.Contains(s, "signature"):
-		return "sig"
-	}
-	return "err"
-}
-
 func (r *runner) setup(n *core.Node) {
 	for _, u := range users {
 		if _, err := n.Fund(n.Account(u).Addr, "3000000"); err != nil {
@@ -246,25 +190,17 @@ func (r *runner) setup(n *core.Node) {
 func (r *runner) run(dir string) {
 	p := r.plan
 	opt := core.Options{NumAdmins: p.NAdmins, Balance: "100000000", GasPrice: 1, EnableAudit: p.Audit, Seed: p.Seed, Quiet: true}
-	oa, ob := opt, opt
-	oa.Dir, ob.Dir = dir+"/a", dir+"/b"
-	var err error
-	if r.a, err = core.NewNode(oa); err != nil {
+	pair, err := lockstep.New(opt, dir)
+	if err != nil {
 		panic(err)
 	}
-	if r.b, err = core.NewNode(ob); err != nil {
-		panic(err)
-	}
-	defer r.a.Close()
-	defer r.b.Close()
+	r.pair, r.a, r.b = pair, pair.A, pair.B
+	defer pair.Close()
 	r.setup(r.a)
 	r.setup(r.b)
-	r.allow = map[string]bool{}
-	r.attr = true
 	admins := []string{}
 	for _, ad := range r.a.Admins() {
 		admins = append(admins, ad.Addr.String())
-		r.allow["account-"+ad.Addr.String()] = true
 	}
 	known := map[string]string{}
 	for _, u := range users {
@@ -273,17 +209,15 @@ func (r *runner) run(dir string) {
 	for pn := range poor {
 		known[pn] = r.a.Account(pn).Addr.String()
 	}
-	bal0, _, _ := balances(r.a)
+	bal0, _, _ := lockstep.Balances(r.a)
 	r.emit(map[string]interface{}{"ev": "Init", "name": p.Name, "admins": admins, "nadmins": len(admins), "accounts": known,
-		"h": int(r.a.Height()), "bal": bal0, "setupEqual": len(diffKeys(r.a.Dump(), r.b.Dump())) == 0})
+		"h": int(r.a.Height()), "bal": bal0, "setupEqual": pair.SetupEqual()})
 	for bi, blk := range p.Blocks {
 		var txs []pb.Transaction
-		var local []bool
 		descs := []map[string]interface{}{}
 		for _, t := range blk {
 			tx := r.build(r.a, t)
 			txs = append(txs, tx)
-			local = append(local, false)
 			from := r.acct(r.a, t.From)
 			d := map[string]interface{}{"k": t.K, "from": from.Addr.String(), "cls": t.Cls, "badsig": t.BadSig, "m": t.M, "amtKind": "none", "amtNum": 0}
 			if t.K == "transfer" {
@@ -306,84 +240,12 @@ func (r *runner) run(dir string) {
 			}
 			descs = append(descs, d)
 		}
-		preBal, _, _ := balances(r.a)
-		h0 := r.a.Height()
-		r.emit(map[string]interface{}{"ev": "Submit", "h": int(h0 + 1), "n": len(txs)})
-		res, err := r.a.ExecBlock(txs, local, 0)
-		if err != nil {
-			cls := "error"
-			if strings.Contains(err.Error(), "wedged") {
-				cls = "wedged"
-			}
-			r.emit(map[string]interface{}{"ev": "ExecError", "h": int(h0 + 1), "cls": cls, "msg": err.Error(), "height": int(r.a.Height())})
+		r.emit(map[string]interface{}{"ev": "Submit", "h": int(r.a.Height() + 1), "n": len(txs)})
+		ev, res := pair.Exec(txs, descs, 0)
+		r.emit(ev)
+		if res == nil {
 			return
 		}
-		// receipts
-		orderOK := len(res.Receipts) == len(txs)
-		var keep []pb.Transaction
-		var keepLocal []bool
-		failedPos := []int{}
-		for i, rc := range res.Receipts {
-			if i < len(txs) && rc.TxHash.String() != txs[i].GetHash().String() {
-				orderOK = false
-			}
-			descs[i]["status"] = rc.Status.String()
-			descs[i]["ret"] = retClass(rc)
-			descs[i]["pos"] = i
-			if rc.Status == pb.Receipt_SUCCESS {
-				keep = append(keep, txs[i])
-				keepLocal = append(keepLocal, false)
-			} else {
-				failedPos = append(failedPos, i)
-				r.allow["account-"+txs[i].GetFrom().String()] = true
-			}
-		}
-		// delivery metadata: positions announced as valid
-		deliv := []int{}
-		if res.Meta != nil {
-			for _, vs := range res.Meta.Counter {
-				for _, v := range vs.Slice {
-					if v.Valid {
-						deliv = append(deliv, int(v.Index))
-					}
-				}
-			}
-		}
-		sort.Ints(deliv)
-		// sibling: same block without the failed transactions
-		resB, errB := r.b.ExecBlock(keep, keepLocal, 0)
-		sameOthers := errB == nil
-		if errB == nil {
-			for i, rc := range resB.Receipts {
-				if rc.Status != pb.Receipt_SUCCESS {
-					sameOthers = false
-				}
-				_ = i
-			}
-		}
-		if !sameOthers {
-			r.attr = false
-		}
-		// report a differing key once, in the block where it starts to differ
-		diff := []string{}
-		if r.prevDiff == nil {
-			r.prevDiff = map[string]bool{}
-		}
-		for _, k := range diffKeys(r.a.Dump(), r.b.Dump()) {
-			if !r.prevDiff[k] || r.allow[k] {
-				diff = append(diff, k)
-			}
-			r.prevDiff[k] = true
-		}
-		allowed := []string{}
-		for k := range r.allow {
-			allowed = append(allowed, k)
-		}
-		sort.Strings(allowed)
-		postBal, postNon, neg := balances(r.a)
-		r.emit(map[string]interface{}{"ev": "Block", "h": int(res.Block.BlockHeader.Number), "hPrev": int(h0), "txs": descs,
-			"nrec": len(res.Receipts), "orderOK": orderOK, "failed": failedPos, "deliv": deliv,
-			"attributable": r.attr, "diff": diff, "allowed": allowed, "pre": preBal, "bal": postBal, "non": postNon, "negative": neg})
 		if vs, ok := p.Views[bi]; ok {
 			d0 := r.a.Dump()
 			m0 := r.a.Ledger.GetChainMeta()
@@ -394,13 +256,12 @@ func (r *runner) run(dir string) {
 			}
 			rcs := r.a.View(vtx)
 			m1 := r.a.Ledger.GetChainMeta()
-			r.emit(map[string]interface{}{"ev": "View", "n": len(vtx), "nrec": len(rcs), "changed": diffKeys(d0, r.a.Dump()),
+			r.emit(map[string]interface{}{"ev": "View", "n": len(vtx), "nrec": len(rcs), "changed": lockstep.DiffKeys(d0, r.a.Dump()),
 				"metaSame": m0.Height == m1.Height && m0.BlockHash.String() == m1.BlockHash.String() && m0.InterchainTxCount == m1.InterchainTxCount})
 		}
 		if p.Restart[bi] {
 			if err := r.a.Restart(); err != nil {
-				r.emit(map[string]interface{}{"ev": "ExecError", "h": int(r.a.Height()), "cls": "restart", "msg": err.Error(), "height": 0})
-				return
+				return // infrastructure (in-process restart), not an observation about bitxhub
 			}
 			r.emit(map[string]interface{}{"ev": "Restart", "h": int(r.a.Height())})
 		}
